@@ -238,7 +238,7 @@ func (s *SpyStore) RemoveAllExpired(ctx context.Context) error {
 type nthFault struct {
 	mu    sync.Mutex
 	armed bool
-	n     int
+	n     int // 0 = every command fails (an outage below the store)
 	seen  int
 }
 
@@ -249,7 +249,7 @@ func (h *nthFault) ProcessHook(next redis.ProcessHook) redis.ProcessHook {
 		fail := false
 		if h.armed {
 			h.seen++
-			fail = h.seen == h.n
+			fail = h.seen == h.n || h.n == 0
 		}
 		h.mu.Unlock()
 		if fail {
@@ -266,7 +266,7 @@ func (h *nthFault) ProcessPipelineHook(next redis.ProcessPipelineHook) redis.Pro
 		fail := false
 		if h.armed {
 			h.seen++
-			fail = h.seen == h.n
+			fail = h.seen == h.n || h.n == 0
 		}
 		h.mu.Unlock()
 		if fail {
@@ -313,15 +313,23 @@ func redisFaultMode(mode string, f func()) (effective bool) {
 	return true
 }
 
-// redisOutage makes every Redis command fail for the duration of f (fault mode "redis").
+// redisOutage makes every Redis command fail for the duration of f (fault mode "redis"). The commands fail in the
+// client, before anything is sent: an error REPLY to MULTI would leave go-redis with unread replies on a pooled
+// connection, and later commands would read answers that are not theirs.
 func redisOutage(active bool, f func()) {
 	if !active {
 		f()
 		return
 	}
-	mr, _ := Redis()
-	mr.SetError("ERR injected redis outage")
-	defer mr.SetError("")
+	Redis()
+	redisNth.mu.Lock()
+	redisNth.armed, redisNth.n, redisNth.seen = true, 0, 0
+	redisNth.mu.Unlock()
+	defer func() {
+		redisNth.mu.Lock()
+		redisNth.armed = false
+		redisNth.mu.Unlock()
+	}()
 	f()
 }
 
